@@ -387,4 +387,67 @@ def protectedAt (t : Table) (i : Nat) (m : String) : Bool :=
   | some r => !isPublic r && !r.static && r.prot && r.methods.contains m && !(m == "OPTIONS" && r.autoOptions)
   | none => false
 
+/-! ### wave 9 — protection is decided per matched RULE, not per path prefix
+
+A path is its list of segments; a rule's pattern is a list of literal and variable segments (`<instance_uuid>`
+matches any non-empty segment — also one that is spelled like a public resource: `/metrics/run-step`).  `handleP` is
+the dispatch of a server whose token check sits in front of the dispatch (a `before_request` hook) and exempts
+requests by a predicate `ex` on the PATH.  The probed patterns are generated next to the route table. -/
+
+inductive Seg where
+  | lit (s : String)
+  | var
+deriving DecidableEq, Repr
+
+def segMatches : List Seg → List String → Bool
+  | [], [] => true
+  | .lit s :: ps, x :: xs => s == x && segMatches ps xs
+  | .var :: ps, x :: xs => x != "" && segMatches ps xs
+  | _, _ => false
+
+/-- two patterns can match one and the same path -/
+def patOverlap : List Seg → List Seg → Bool
+  | [], [] => true
+  | .lit a :: ps, .lit b :: qs => a == b && patOverlap ps qs
+  | .lit a :: ps, .var :: qs => a != "" && patOverlap ps qs
+  | .var :: ps, .lit b :: qs => b != "" && patOverlap ps qs
+  | .var :: ps, .var :: qs => patOverlap ps qs
+  | _, _ => false
+
+abbrev Exempt := List String → Bool
+
+/-- exemption by the FIRST path segment (the seeded hook) -/
+def firstSegExempt (names : List String) : Exempt := fun p => names.contains (p.head?.getD "")
+
+/-- exemption by the matched rule: the path matches the pattern of a public rule -/
+def ruleExempt (t : Table) (pats : List (List Seg)) : Exempt :=
+  fun p => (t.routes.zip pats).any (fun x => isPublic x.1 && segMatches x.2 p)
+
+/-- no path matches both a public and a non-public rule of the table -/
+def tableSeparated (t : Table) (pats : List (List Seg)) : Bool :=
+  (t.routes.zip pats).all (fun x => (t.routes.zip pats).all (fun y => !(isPublic x.1 && !isPublic y.1 && patOverlap x.2 y.2)))
+
+def handleP (ex : Exempt) (V : View σ π) (t : Table) (tok : Option (List Char)) (s : σ) (path : List String)
+    (r : Request π) : σ × Nat :=
+  match t.routes[r.route]? with
+  | none => (s, 404)
+  | some rt =>
+    if !rt.methods.contains r.method then (s, 405)
+    else if r.method == "OPTIONS" && rt.autoOptions then (s, 200)
+    else if rt.static then (if t.staticFiles.contains r.file then V r.route r.payload s else (s, 404))
+    else if ex path then V r.route r.payload s
+    else guarded V tok s r
+
+/-- observations: (spelling of the variable segment, rule index, was a refused credential served?) -/
+abbrev IdObs := List (String × Nat × Bool)
+
+def protectionDecidedByRule (o : IdObs) : Bool := o.all (fun x => !x.2.2)
+
+/-- rule `i` is a non-public application rule of the form `/<var>/x` dispatching `m`, and `n` is an exempt first segment -/
+def firstSegCollision (t : Table) (pats : List (List Seg)) (names : List String) (i : Nat) (m n x : String) : Bool :=
+  names.contains n && n != "" &&
+  (match t.routes[i]?, pats[i]? with
+   | some r, some p => !isPublic r && !r.static && r.methods.contains m && m != "OPTIONS" && p == [.var, .lit x]
+   | _, _ => false)
+
 end Bptk.C15
